@@ -45,7 +45,9 @@ o P2 240102#N2 todo with prio w0
 - 240103#N3 multi line w0
   * bullet b0
 - 240103#U3 untouched three
-- 240401 240104#N4 stamped earlier w0
+- 240401 240104#N4 stamped  earlier w0
+  * n4 bullet  spaced
+  continued line of n4
 - 240104#U4 untouched four
 - {t}#N5 created today w0
 - {t}#U5 untouched five
@@ -72,7 +74,7 @@ def apply_edit(zd: Path, ev: str, guards: dict) -> bool:
         for i, l in enumerate(lines):
             if mark in l:
                 for k in (0, 1):
-                    if l.endswith(f" w{k}"):
+                    if l.endswith(f" w{k}"):  # first line of the note
                         lines[i] = l[: -len(f"w{k}")] + f"w{k + 1}"
                         p.write_text("\n".join(lines))
                         return True
